@@ -390,8 +390,10 @@ Definition read_system_info (e : endian) (b : bytes) : res Z :=
   if can_read b 0 FSZ_SYSINFO then Ok (val e (sub b 0 2)) else Err EStreamReadFailure.
 
 (* ---- exception stream and MinidumpException::print's parameter loop *)
-Definition read_exception (e : endian) (b : bytes) : res Z :=
-  if can_read b 0 FSZ_EXCEPTION then Ok (val e (sub b 32 4)) else Err EStreamReadFailure.
+(* number_parameters, thread_context.data_size, thread_context.rva *)
+Definition read_exception (e : endian) (b : bytes) : res (Z * (Z * Z)) :=
+  if can_read b 0 FSZ_EXCEPTION then Ok (val e (sub b 32 4), (val e (sub b 160 4), val e (sub b 164 4)))
+  else Err EStreamReadFailure.
 Fixpoint exc_print_loop (n : nat) (i limit : Z) : res unit :=
   if limit <=? i then Ok tt
   else match n with
@@ -405,6 +407,43 @@ Definition exception_print (v : version) (nparams : Z) : res unit :=
   | Unfixed => exc_print_loop 16 0 nparams
   | Fixed => exc_print_loop 16 0 (Z.min nparams 15)
   end.
+
+(* ---- MinidumpContext::read dispatch (context.rs:1042) and the arms of MinidumpContext::print,
+   as a table: processor_architecture -> (variant, size_with of the CONTEXT_* struct, offset and
+   width of context_flags, the CONTEXT_* cpu flag that must be the only cpu bit set) *)
+Inductive ctxkind := CX86 | CAmd64 | CPpc | CPpc64 | CSparc | CArm | CArm64 | CArm64Old | CMips.
+Definition ctx_table (arch : Z) : option (ctxkind * Z * Z * Z * Z) :=
+  if (arch =? 0) || (arch =? 10) then Some (CX86, 716, 0, 4, 65536)
+  else if arch =? 9 then Some (CAmd64, 1232, 48, 4, 1048576)
+  else if arch =? 3 then Some (CPpc, 1004, 0, 4, 536870912)
+  else if arch =? 32770 then Some (CPpc64, 1160, 0, 8, 16777216)
+  else if arch =? 32769 then Some (CSparc, 584, 0, 4, 268435456)
+  else if arch =? 5 then Some (CArm, 368, 0, 4, 1073741824)
+  else if arch =? 12 then Some (CArm64, 912, 0, 4, 4194304)
+  else if arch =? 32771 then Some (CArm64Old, 796, 0, 8, 2147483648)
+  else if arch =? 1 then Some (CMips, 600, 0, 4, 262144)
+  else None.
+(* ContextFlagsCpu::from_flags: (flags & 0xffffff00) truncated to the ten known cpu bits *)
+Definition CTX_CPU_BITS : Z := 4049403904.  (* 0xF15D0000 *)
+Definition context_read (e : endian) (arch : Z) (b : bytes) : option ctxkind :=
+  match ctx_table arch with
+  | None => None
+  | Some (k, size, off, w, flag) =>
+      if can_read b 0 size then
+        let flags := val e (sub b off w) mod 4294967296 in     (* `as u32` for the two u64 fields *)
+        if Z.land flags CTX_CPU_BITS =? flag then Some k else None
+      else None
+  end.
+(* Unfixed: the PPC, PPC64 and SPARC arms are unimplemented!() (F-C01e) *)
+Definition context_print (v : version) (k : ctxkind) : res unit :=
+  match v, k with
+  | Unfixed, CPpc | Unfixed, CPpc64 | Unfixed, CSparc => Pan PANIC_CTX_UNIMPL
+  | _, _ => Ok tt
+  end.
+(* MinidumpException::print(f, Some(system_info), misc): parameters, then the context if it parses *)
+Definition exception_print_ctx (v : version) (nparams : Z) (k : option ctxkind) : res unit :=
+  rbind (exception_print v nparams) (fun _ =>
+  match k with Some k' => context_print v k' | None => Ok tt end).
 
 (* ---- Minidump::read *)
 Definition MD_SIGNATURE := 1347241037.  (* 'MDMP' 0x504d444d *)
